@@ -49,8 +49,8 @@ CHECKS = {
             "deterministic simulation: simulated wall clock (stepping/jumping) and id-perturbing agent, twin-run oracle"),
     "C08": ("exploration", "6 C08",
             "The matrix status x index class x binding list x operation x protocol (18 216 cells) is enumerated completely in "
-            "the thorough tier (seeded 3 000-cell sample in quick) against a scripted agent; oracle is an independent RFC 3416 "
-            "status->exception table, error_status and offending_oid.",
+            "both tiers against a scripted agent (thorough: every status -2..63 and the INTEGER length boundaries, 60 000+ "
+            "cells); oracle is an independent RFC 3416 status->exception table, error_status and offending_oid.",
             "deterministic simulation: scripted error-status agent, full matrix enumeration, RFC table oracle"),
     "C09": ("fault_enumeration", "6 C09",
             "On-path attacker as a network rewrite fault: for each scenario the exchange is re-run from the identical state "
